@@ -25,6 +25,8 @@ def V(i):
     return ['v', 1, i]
 
 
+from . import c12 as _c12
+
 BASES = {
     'B1': ('S2', ['kt 5', '<ta n1>', [W('k1'), ' ', V('v1')], '  kb x', '</ta>',
                   ['<', W('t2'), '>'], '  ka 2', ['</', ['=', 't2'], '>'], 'zz top']),
@@ -36,6 +38,9 @@ BASES = {
                   '</ta>']),
     'B5': ('S2', [['<ta ', W('n1'), '>'], '  ka 1', ['  ', W('k1'), ' ', V('v1')], '</ta>',
                   ['<ta ', W('n2'), '>'], '  ka 1', '</ta>']),
+    # a text that %import-s a component: what the import added holds inside and after included fragments
+    'B6': ('I12', ['%import vfq_a', ['<', W('t1'), ' n1>'], ['</', ['=', 't1'], '>'], '<tb>', 'kb 1', '</tb>',
+                   ['<', W('t2'), '/>'], 'kz z']),
 }
 
 # (base, [(file to cut from, i, j, new file name relative to BASE)], balanced?)
@@ -62,6 +67,12 @@ CUTS_Q = [
 CUTS_Q += [
     ('B5', [(MAINNAME, 1, 2, 'x/k.conf'), (MAINNAME, 5, 6, 'x/k.conf')], True),      # siblings, same resource
     ('B5', [(MAINNAME, 1, 2, 'k.conf'), (MAINNAME, 5, 6, 'k.conf')], True),
+]
+CUTS_Q += [
+    # fragment names that differ from an includer further up the chain in letter case only (other resources)
+    ('B1', [(MAINNAME, 1, 5, 'x/MAIN.conf')], True),
+    ('B1', [(MAINNAME, 1, 5, 'x/inc.conf'), ('x/inc.conf', 1, 3, 'x/Main.Conf')], True),
+    ('B3', [(MAINNAME, 1, 5, 'x/sub/inc.conf'), ('x/sub/inc.conf', 1, 3, 'x/sub/INC.conf')], True),
 ]
 CUTS_T = CUTS_Q + [
     ('B1', [(MAINNAME, 1, 8, 'x/inc.conf'), ('x/inc.conf', 1, 3, 'x/i2.conf'), ('x/inc.conf', 3, 6, 'p2.conf')], True),
@@ -285,6 +296,9 @@ class C06(P.TextMixin, Harness):
         return self.text_inputs(eng, unit)
 
     def _xml(self, unit):
+        if unit['schema'] == 'I12':
+            _c12.ensure_packages()
+            return _c12.XML
         return SD_XML if unit['schema'] == 'SD' else XML[unit['schema']]
 
     def _out(self, r):
